@@ -584,11 +584,18 @@ size_t varintFloatEncodeAuto(uint8_t *output, const double *values,
      * LOW:     4-bit → 2^-4  ≈ 6.3e-2 (use for >= 3e-2) */
     varintFloatPrecision precision = VARINT_FLOAT_PRECISION_LOW;
 
-    if (max_relative_error < 1e-10) {
+    /* Pick the coarsest precision whose published bound 2^-(mantissa bits)
+     * does not exceed the requested error */
+    if (max_relative_error <
+        varintFloatPrecisionMaxRelativeError(VARINT_FLOAT_PRECISION_HIGH)) {
         precision = VARINT_FLOAT_PRECISION_FULL;
-    } else if (max_relative_error < 5e-4) { /* 0.05% threshold */
+    } else if (max_relative_error <
+               varintFloatPrecisionMaxRelativeError(
+                   VARINT_FLOAT_PRECISION_MEDIUM)) {
         precision = VARINT_FLOAT_PRECISION_HIGH;
-    } else if (max_relative_error < 0.03) { /* 3% threshold */
+    } else if (max_relative_error <
+               varintFloatPrecisionMaxRelativeError(
+                   VARINT_FLOAT_PRECISION_LOW)) {
         precision = VARINT_FLOAT_PRECISION_MEDIUM;
     } else {
         precision = VARINT_FLOAT_PRECISION_LOW;
